@@ -82,6 +82,19 @@ def judge_events(before, after, events, ctx, what):
                  % (events, before, cur, after, what))
 
 
+class IdxObj:
+    """An integer-like object: only __index__ (what list accepts wherever it takes an index or a multiplier)."""
+
+    def __init__(self, v):
+        self.v = v
+
+    def __index__(self):
+        return self.v
+
+    def __repr__(self):
+        return "IdxObj(%r)" % (self.v,)
+
+
 # ------------------------------------------------------------------ op application
 def apply_op(lst, op, validate):
     """Apply op to lst (TraitList or list). For a builtin list the items are validated first."""
@@ -135,6 +148,18 @@ def apply_op(lst, op, validate):
         lst[slice(*op[1])] = vs(list(lst)) if is_model else lst
     elif name == "imul":
         lst *= op[1]
+    # the same operations with an index-like OBJECT in place of the int
+    elif name == "pop_idx":
+        return lst.pop(IdxObj(op[1]))
+    elif name == "insert_idx":
+        x = v(op[2])
+        lst.insert(IdxObj(op[1]), x)
+    elif name == "imul_idx":
+        lst *= IdxObj(op[1])
+    elif name == "setitem_idx":
+        lst[IdxObj(op[1])] = v(op[2])
+    elif name == "delitem_idx":
+        del lst[IdxObj(op[1])]
     elif name == "remove":
         lst.remove(op[1])
     elif name == "reverse":
@@ -356,6 +381,9 @@ OP = st.one_of(
     st.tuples(st.just("extend"), ITEMS),
     st.tuples(st.just("iadd"), ITEMS),
     st.tuples(st.just("extend_self")), st.tuples(st.just("iadd_self")),
+    st.tuples(st.just("pop_idx"), st.integers(-4, 4)), st.tuples(st.just("insert_idx"), st.integers(-4, 4), ITEM),
+    st.tuples(st.just("imul_idx"), st.integers(-1, 2)), st.tuples(st.just("setitem_idx"), st.integers(-4, 4), ITEM),
+    st.tuples(st.just("delitem_idx"), st.integers(-4, 4)),
     st.tuples(st.just("setslice_self"), st.tuples(OPT_IDX, OPT_IDX, st.sampled_from([None, None, 1, 2, -1]))),
     st.tuples(st.just("imul"), st.one_of(st.integers(-1, 3), st.sampled_from([0.5, 0.0, -1.0, 2.5, "5", None, True, False]))),
     st.tuples(st.just("remove"), ITEM),
